@@ -18,7 +18,8 @@ if prop == 'C02':
     # with a final newline: the rebuilt text must be the input, byte for byte
     # not in RFC layout as written (the body of `assert c;` belongs on its own line; a `let` that is a binding value
     # starts on its own line — the implementation's own output there is finding F-32 of C18), or not one token for Nix
-    NOT_CANON = {('let_empty', None), ('let_empty_set', None), ('assert', None), ('assert_list', None), ('assert_set', None), ('let', 'bindval'), ('let_set', 'bindval'), ('let_list', 'bindval'), ('inherit_in_let', 'bindval'), ('let_let', 'bindval'), ('let_let_let', 'bindval')}
+    NOT_CANON = {('inherit_from_multi_1line', None),      # a multi-line inherit source with `inherit (` on the first line is not the formatter's layout (the implementation moves `(` to its own line)
+                 ('let_empty', None), ('let_empty_set', None), ('assert', None), ('assert_list', None), ('assert_set', None), ('let', 'bindval'), ('let_set', 'bindval'), ('let_list', 'bindval'), ('inherit_in_let', 'bindval'), ('let_let', 'bindval'), ('let_let_let', 'bindval')}
     NOT_CANON_ATOMS = {'00', '007', '1e3', 'a or b', '[]', '{}'}
     NOT_CANON_CELLS = lambda a, ctx: (a == '-1' and ctx in ('callarg', 'callarg2', 'import_arg')) or (a.startswith("''") and '\n' in a and ctx == 'formal_default')     # `f -1` is a subtraction; a multi-line default makes the formals multi-line
     for cname, expr in CONSTRUCTS.items():
